@@ -1,6 +1,6 @@
 --------------------------------- MODULE Denote ---------------------------------
 (* Dispatch from an operation event to its reference meaning.                    *)
-EXTENDS Views, Select, Broadcast, Slice, Ufunc, Compare, Linalg, NN, StackMachine, TLC
+EXTENDS Views, Select, Broadcast, Slice, Ufunc, Compare, Linalg, NN, NNReal, StackMachine, TLC
 
 Operand(e, j) == IF j > Len(e.shapes) THEN Nothing
                  ELSE IF "data" \in DOMAIN e THEN [ok |-> TRUE, shape |-> e.shapes[j], elems |-> e.data[j]]
@@ -129,6 +129,15 @@ ExpectWith(e, a) ==
       [] e.op = "conv1d" -> ConvND(1, a, Operand(e, 2), IF e.args.bias THEN <<Operand(e, 3)>> ELSE <<>>, e.args.stride, e.args.padding, e.args.dilation, e.args.groups)
       [] e.op = "max_pool2d" -> Pool2d("max", a, e.args.kernel, e.args.stride, e.args.ceil)
       [] e.op = "avg_pool2d" -> Pool2d("avg", a, e.args.kernel, e.args.stride, e.args.ceil)
+      [] e.op = "softmax" -> Approx(Softmax(a, e.args.axis, 1), e.args.tol)
+      [] e.op = "softmin" -> Approx(Softmax(a, e.args.axis, -1), e.args.tol)
+      [] e.op = "batch_norm" -> Approx(BatchNorm(a, Operand(e, 2), Operand(e, 3), Operand(e, 4), Operand(e, 5)), e.args.tol)
+      [] e.op = "layer_norm" -> Approx(LayerNorm(a, Operand(e, 2), Operand(e, 3)), e.args.tol)
+      [] e.op = "instance_norm" -> Approx(InstanceNorm(a, Operand(e, 2), Operand(e, 3), e.args.nd), e.args.tol)
+      [] e.op = "group_norm" -> Approx(GroupNormNC(a, e.args.groups, Operand(e, 2), Operand(e, 3)), e.args.tol)
+      [] e.op = "bilinear" -> Bilinear(a, Operand(e, 2), Operand(e, 3), IF e.args.bias THEN <<Operand(e, 4)>> ELSE <<>>)
+      [] e.op = "pairwise_distance" -> Approx(PairwiseDistance(a, Operand(e, 2), e.args.keepdims), e.args.tol)
+      [] e.op = "cosine_similarity" -> Approx(CosineSimilarity(a, Operand(e, 2), e.args.axis), e.args.tol)
       [] e.op = "linear" -> Linear(a, Operand(e, 2), IF e.args.bias THEN <<Operand(e, 3)>> ELSE <<>>)
       \* C09 / C01: index functions (results are shape-like: carried in the shape field)
       [] e.op = "compute_strides" -> [ok |-> TRUE, shape |-> Strides(e.shapes[1]), elems |-> <<>>]
